@@ -38,7 +38,8 @@ const char *mc_id = "C16";
 const char *mc_rule = "snapshot exploration per storage pair (A,B): all (content A, content B) pre-states over boundary lengths (0,1,3,4,5 | pointer overlay 8,11,12 | cap-1,cap,cap+1 of both storages | 253, 300, 65534) "
                       "x all op instances on the real code (set, set(strlen), set(embedded NUL), set(NULL,n), over-long, copy A<-B / B<-A / A<-A / A<-NULL, operator=, set to own data, traits / C++ copy construction) vs a (charset, byte string) model; "
                       "post-states whose raw storage image is not an initial state are expanded with the full alphabet again; "
-                      "nontrivial = executed cases whose last operation moves the destination between unset/inline and external storage or replaces an external block";
+                      "list jobs: sibling lists of 1..3 named nodes x every key x start x position of mpt_node_locate / mpt_node_find / mpt_node_next vs a positional model; "
+                      "nontrivial = executed cases whose last operation moves the destination between unset/inline and external storage or replaces an external block, plus (list jobs) key/name pairs where a longer name continues with a zero byte at the key length";
 
 // ------------------------------------------------------------------ fault containment
 // free() of something that is not a live heap block is fatal for ASan, and its symptom (report, SIGSEGV inside the
@@ -781,6 +782,132 @@ static void alloc_body(Run &r, Ctx &x, uint64_t &nontrivial, Tally &tally)
 	if (!e.empty()) { report(r, "release", e, where); return; }
 }
 
+// ------------------------------------------------------------------ list jobs: searching nodes by name
+// Sibling lists of 1..3 nodes under a parent, names drawn from texts (with and without embedded NUL, around the inline
+// capacity) and non-text zero-filled identifiers of different lengths.  Every key (text, text in the explicit-charset form,
+// non-text) x every start node x every position (>0 forward, 0 = last, <0 backward) of mpt_node_locate, plus mpt_node_find
+// and mpt_node_next for C-string keys, is compared with a positional model: a node matches iff charset, length and all
+// bytes of its name equal the key.
+struct Name { int fam; size_t len; };
+static std::vector<Name> list_names(Tier t)
+{
+	std::vector<Name> v = { {FZ, 0}, {FP, 0}, {FP, 1}, {FP, 2}, {FN, 3}, {FN, 5}, {FP, 5}, {FQ, 5}, {FZ, 1}, {FZ, 3}, {FZ, 6}, {FP, 19}, {FN, 39}, {FZ, 21} };
+	if (t == Thorough) for (Name n : { Name{FP, 20}, Name{FN, 41}, Name{FP, 300}, Name{FN, 601}, Name{FZ, 2}, Name{FZ, 20} }) v.push_back(n);
+	return v;
+}
+static std::string ndesc(const Name &n) { return n.fam == FZ ? (n.len ? fmt("Z(%zu)", n.len) : std::string("unset")) : fmt("%s(%zu)", n.fam == FQ ? "Q" : (n.fam == FN ? "N" : "P"), n.len); }
+struct ListCounters { uint64_t lists, calls, match, nomatch, discriminating; };
+
+static void list_body(Run &r, Ctx &x, const std::string &job, ListCounters &lc)
+{
+	guard_install();
+	std::vector<Name> names = list_names(r.tier);
+	size_t first = strtoul(job.c_str() + 5, 0, 10);
+	size_t n = 1 + x.choose(3);
+	std::vector<Name> nm(1, names[first]);
+	for (size_t i = 1; i < n; ++i) nm.push_back(names[x.choose(names.size())]);
+	nlibblk = 0;
+	if ((++lc.lists & 1023) == 0) ledger_reset();
+	++r.states;
+	std::string where = "siblings [";
+	for (size_t i = 0; i < n; ++i) where += (i ? ", " : "") + ndesc(nm[i]);
+	where += "]";
+	if (n == 3 && lc.lists % 97 == 5) r.sample(where + " x all keys x start node x pos -3..3 (mpt_node_locate), mpt_node_find, mpt_node_next");
+	r.note("%s", where.c_str());
+	r.hint("list construction");
+	asan_error();
+	size_t l0 = ledger_live();
+	// build: parent + n children (C constructor, the middle one through the linked mpt++ override), names via mpt_identifier_set
+	mpt::node *parent = LIB(mpt::mpt_node_new_csource(0));
+	std::vector<mpt::node *> nd(n);
+	std::vector<M> model(n);
+	std::string e;
+	for (size_t i = 0; i < n && e.empty(); ++i) {
+		nd[i] = i == 1 ? LIB(mpt::mpt_node_new(0)) : LIB(mpt::mpt_node_new_csource(0));
+		const Bytes &bt = bytes(nm[i].fam, nm[i].len);
+		e = guarded([&]() {
+			void *ret = nm[i].fam == FZ ? (nm[i].len ? LIB(mpt::mpt_identifier_set(&nd[i]->ident, 0, (int) nm[i].len)) : (void *) nd[i])
+			                            : LIB(mpt::mpt_identifier_set(&nd[i]->ident, bt.arg, (int) bt.arglen));
+			return ret ? std::string() : std::string("refused\tname of permitted length was refused"); });
+		model[i].cs = nm[i].fam == FZ ? 0 : UTF8;
+		model[i].b = nm[i].fam == FZ && !nm[i].len ? &empty_bytes : &bt.stored;
+	}
+	if (!e.empty() || asan_error()) { report(r, "node name|set", e.empty() ? "memory\tAddressSanitizer report while naming the nodes" : e, where); return; }
+	for (size_t i = 0; i < n; ++i) { nd[i]->parent = parent; nd[i]->prev = i ? nd[i - 1] : 0; nd[i]->next = i + 1 < n ? nd[i + 1] : 0; }
+	parent->children = nd[0];
+	auto idx = [&](const mpt::node *p) -> int { if (!p) return -1; for (size_t i = 0; i < n; ++i) if (nd[i] == p) return (int) i; return -2; };
+	// keys: every name of the table in its native form, texts additionally in the explicit-charset form
+	bool bad = false;
+	for (size_t k = 0; k < names.size() && !bad; ++k) for (int form = 0; form < 2 && !bad; ++form) {
+		const Name &kn = names[k];
+		if (form == 1 && kn.fam == FZ) continue;
+		const Bytes &kb = bytes(kn.fam, kn.len);
+		M key; key.cs = kn.fam == FZ ? 0 : UTF8; key.b = kn.fam == FZ && !kn.len ? &empty_bytes : &kb.stored;
+		// exactly sized argument
+		size_t klen = kn.fam == FZ ? kn.len : (form ? kn.len + 1 : kn.len);
+		char *arg = (char *) malloc(klen ? klen : 1); memcpy(arg, key.b->data(), klen);
+		int charset = kn.fam == FZ ? 0 : (form ? UTF8 : -1);
+		const char *kcls = kn.fam == FZ ? "non-text key" : (form ? "text key (explicit charset)" : "text key");
+		std::vector<int> hit;
+		for (size_t i = 0; i < n; ++i) {
+			if (model[i] == key) hit.push_back((int) i);
+			else if (model[i].cs == key.cs && model[i].size() > key.size() && key.size() && !memcmp(model[i].b->data(), key.b->data(), key.size() - (key.cs == UTF8)) && (*model[i].b)[key.size() - (key.cs == UTF8)] == 0) ++lc.discriminating;
+		}
+		for (size_t s = 0; s < n && !bad; ++s) for (int pos = -3; pos <= 3 && !bad; ++pos) {
+			int want = -1;
+			if (pos > 0) { int c = 0; for (int h : hit) if (h >= (int) s && ++c == pos) { want = h; break; } }
+			else if (pos == 0) { if (!hit.empty()) want = hit.back(); }
+			else { int c = 0; for (size_t j = hit.size(); j-- > 0;) if (hit[j] < (int) s && ++c == -pos) { want = hit[j]; break; } }
+			r.hint("mpt_node_locate");
+			int got = -3;
+			e = guarded([&]() { got = idx(LIB(mpt::mpt_node_locate(nd[s], pos, arg, klen, charset))); return std::string(); });
+			++lc.calls; ++r.transitions;
+			if (e.empty() && asan_error()) e = "memory\tAddressSanitizer: the search reads outside the key or a name";
+			if (e.empty() && got != want) e = fmt("wrong-node\treturned %s, expected %s", got < 0 ? (got == -1 ? "no node" : "a foreign pointer") : fmt("node %d", got).c_str(), want < 0 ? "no node" : fmt("node %d", want).c_str());
+			if (!e.empty()) { report(r, std::string("node_locate|") + (pos > 0 ? "forward" : (pos ? "backward" : "last")) + "|" + kcls, e, where + fmt(": mpt_node_locate(node %zu, pos %d, key %s len %zu, charset %d)", s, pos, ndesc(kn).c_str(), klen, charset)); bad = true; }
+			else ++(want >= 0 ? lc.match : lc.nomatch);
+		}
+		// C string interfaces
+		if (!bad && form == 0 && kn.fam != FZ && !memchr(key.b->data(), 0, kn.len)) {
+			const char *cstr = key.b->c_str();
+			for (int pos = -3; pos <= 3 && !bad; ++pos) {
+				int want = -1;
+				if (pos > 0) { if ((size_t) pos <= hit.size()) want = hit[pos - 1]; }
+				else if (pos == 0) { if (!hit.empty()) want = hit.back(); }
+				else if (hit.size() > (size_t) -pos) want = hit[hit.size() - 1 + pos];
+				r.hint("mpt_node_find");
+				int got = -3;
+				e = guarded([&]() { got = idx(LIB(mpt::mpt_node_find(parent, cstr, pos))); return std::string(); });
+				++lc.calls; ++r.transitions;
+				if (e.empty() && asan_error()) e = "memory\tAddressSanitizer: the search reads outside the key or a name";
+				if (e.empty() && got != want) e = fmt("wrong-node\treturned %s, expected %s", got < 0 ? (got == -1 ? "no node" : "a foreign pointer") : fmt("node %d", got).c_str(), want < 0 ? "no node" : fmt("node %d", want).c_str());
+				if (!e.empty()) { report(r, std::string("node_find|") + (pos > 0 ? "forward" : (pos ? "backward" : "last")) + "|text key", e, where + fmt(": mpt_node_find(parent, %s, %d)", ndesc(kn).c_str(), pos)); bad = true; }
+				else ++(want >= 0 ? lc.match : lc.nomatch);
+			}
+			for (size_t s = 0; s < n && !bad; ++s) {
+				int want = -1; for (int h : hit) if (h >= (int) s) { want = h; break; }
+				r.hint("mpt_node_next");
+				int got = -3;
+				e = guarded([&]() { got = idx(LIB(mpt::mpt_node_next(nd[s], cstr))); return std::string(); });
+				++lc.calls; ++r.transitions;
+				if (e.empty() && asan_error()) e = "memory\tAddressSanitizer: the search reads outside the key or a name";
+				if (e.empty() && got != want) e = fmt("wrong-node\treturned %s, expected %s", got < 0 ? (got == -1 ? "no node" : "a foreign pointer") : fmt("node %d", got).c_str(), want < 0 ? "no node" : fmt("node %d", want).c_str());
+				if (!e.empty()) { report(r, "node_next|forward|text key", e, where + fmt(": mpt_node_next(node %zu, %s)", s, ndesc(kn).c_str())); bad = true; }
+				else ++(want >= 0 ? lc.match : lc.nomatch);
+			}
+		}
+		free(arg);
+	}
+	if (bad) return;
+	// release
+	r.hint("release");
+	parent->children = 0;
+	for (size_t i = 0; i < n; ++i) { nd[i]->parent = nd[i]->next = nd[i]->prev = 0; }
+	e = guarded([&]() { for (size_t i = 0; i < n; ++i) LIB(mpt::mpt_node_destroy(nd[i])); LIB(mpt::mpt_node_destroy(parent)); return std::string(); });
+	if (e.empty() && (asan_error() || ledger_live() != l0)) e = "memory\tallocation left or invalid access while releasing the nodes";
+	if (!e.empty()) { report(r, "release", e, where); return; }
+}
+
 // ------------------------------------------------------------------ jobs
 void mc_jobs(Tier t, std::vector<std::string> &jobs)
 {
@@ -790,6 +917,7 @@ void mc_jobs(Tier t, std::vector<std::string> &jobs)
 	else bk = { EMB16, NODE64, NEW64, CXXNODE, NODE256, NEW256 };
 	for (int a = 0; a < NKINDS; ++a) for (int b : bk) jobs.push_back(std::string("A=") + kname[a] + ",B=" + kname[b]);
 	jobs.push_back("alloc");
+	for (size_t i = 0; i < list_names(t).size(); ++i) jobs.push_back("list=" + std::to_string(i));
 }
 
 static void declare(Run &r, bool pair)
@@ -813,6 +941,17 @@ void mc_explore(Run &r, const std::string &job)
 		r.count("nontrivial", nt);
 		return;
 	}
+	if (job.compare(0, 5, "list=") == 0) {
+		declare(r, false);
+		for (const char *k : {"locate: key matches a node", "locate: key matches no node", "locate: a longer name continues with a zero byte at the key length (must not match)"}) r.require(k);
+		ListCounters lc = {0, 0, 0, 0, 0};
+		dfs(r, [&](Ctx &x) { list_body(r, x, job, lc); });
+		r.count("locate: key matches a node", lc.match); r.count("locate: key matches no node", lc.nomatch);
+		r.count("locate: a longer name continues with a zero byte at the key length (must not match)", lc.discriminating);
+		r.count("locate: sibling lists", lc.lists);
+		r.count("nontrivial", lc.discriminating);
+		return;
+	}
 	declare(r, true);
 	PairJob pj;
 	prepare(r, pj, job);
@@ -824,6 +963,7 @@ void mc_explore(Run &r, const std::string &job)
 void mc_replay(Run &r, const std::string &job, const Vec &v)
 {
 	if (job == "alloc") { uint64_t nt = 0; Tally tally; dfs_replay(r, [&](Ctx &x) { alloc_body(r, x, nt, tally); }, v); return; }
+	if (job.compare(0, 5, "list=") == 0) { ListCounters lc = {0, 0, 0, 0, 0}; dfs_replay(r, [&](Ctx &x) { list_body(r, x, job, lc); }, v); return; }
 	PairJob pj;
 	prepare(r, pj, job);
 	dfs_replay(r, [&](Ctx &x) { pair_body(r, pj, x); }, v);
